@@ -230,11 +230,57 @@ static void full_seeks()
     vp::bound("full_seeks", "5, 20 and 25 events on distinct addresses of 3..240 characters recorded in one second, undone and redone by a single seek; event message spelled /undo_change and undo_change");
 }
 
+// ---- the cap of 20 events and merging together: one address X is changed again and again (every record merges into its one event, whose stamp
+// moves) while n changes of other addresses are recorded around it, so that X's event is the OLDEST retained one when the history is full; then
+// further X records at gaps of 1..3 s. Plain list model: merge into the latest event of the address if its stamp is <= 2 s old, else append, keep 20.
+static void cap_and_merge()
+{
+    if(vp::ctx().shard != 0) return;
+    struct MEv { int a; int oldv, newv; time_t t; };
+    for(int n = 17; n <= 23; ++n) for(int refresh = 0; refresh < 2; ++refresh) for(int tailgap = 1; tailgap <= 3; ++tailgap) for(int ntail = 1; ntail <= 2; ++ntail) {
+        std::string cid = "capmerge|n" + std::to_string(n) + "|r" + std::to_string(refresh) + "|g" + std::to_string(tailgap) + "|t" + std::to_string(ntail);
+        if(!vp::want(cid)) continue;
+        vp::current_case() = cid; vp::state(); vp::eval(); vp::nontrivial(vp::fnv(cid));
+        rtosc::UndoHistory h;
+        std::vector<std::pair<std::string, int>> got;
+        h.setCallback([&](const char *m) { ref::Decoded d = ref::decode((const uint8_t *)m, rtosc_message_length(m, 512)); if(d.ok && d.args.size() == 1 && d.types == "i") got.push_back({d.addr, (int)d.args[0].u32}); else got.push_back({"<undecodable>", 0}); });
+        std::vector<MEv> model; time_t now = 5000000; int xv = 100;
+        auto name = [](int a) { return a == 0 ? std::string("/x") : "/other" + std::to_string(a); };
+        auto rec = [&](int a, int o, int nv) {
+            char msg[256]; rtosc_message(msg, sizeof msg, "/undo_change", "sii", name(a).c_str(), o, nv); vp::g_now = now; h.recordEvent(msg); vp::transition();
+            int latest = -1; for(int i = (int)model.size() - 1; i >= 0; --i) if(model[i].a == a) { latest = i; break; }
+            if(latest >= 0 && now - model[latest].t <= 2) { model[latest].newv = nv; model[latest].t = now; }
+            else { model.push_back({a, o, nv, now}); if(model.size() > 20) model.erase(model.begin()); }
+        };
+        rec(0, xv, xv + 1); ++xv;
+        for(int k = 1; k <= n; ++k) {
+            if(refresh) { now += 1; rec(0, xv, xv + 1); ++xv; }      // X dragged on: its event stays fresh (refresh=0: X ages out)
+            rec(k, 0, k);
+        }
+        for(int k = 0; k < ntail; ++k) { now += tailgap; rec(0, xv, xv + 1); ++xv; }
+        const std::string cls = std::string(refresh ? "dragged-address-is-oldest-event" : "aged-address") + ",n=" + (n < 19 ? "below-cap" : n == 19 ? "at-cap" : "above-cap");
+        bool ok = true;
+        if(h.size() != model.size() || h.getPos() != model.size()) { vp::violation("record|size-or-pos-after-record|" + cls, cid, "size=" + std::to_string(h.size()) + " pos=" + std::to_string(h.getPos()) + ", the list model has " + std::to_string(model.size()) + " events"); ok = false; }
+        if(ok) {
+            got.clear(); vp::g_now = now; h.seekHistory(-30); vp::transition();
+            std::vector<std::pair<std::string, int>> want; for(size_t i = model.size(); i-- > 0;) want.push_back({name(model[i].a), model[i].oldv});
+            if(got != want) {
+                std::string d = "undo of everything emitted " + std::to_string(got.size()) + " messages, the model " + std::to_string(want.size());
+                for(size_t i = 0; i < got.size() && i < want.size(); ++i) if(got[i] != want[i]) { d += "; message " + std::to_string(i) + ": " + got[i].first + "=" + std::to_string(got[i].second) + ", expected " + want[i].first + "=" + std::to_string(want[i].second); break; }
+                vp::violation("seek-undo|message-content|" + cls, cid, d);
+            }
+        }
+        vp::outcome("cap-and-merge:" + cls); vp::trace();
+    }
+    vp::bound("cap_and_merge", "one address re-recorded (merged) around 17..23 changes of other addresses, dragged on every second or left to age, then 1..2 more records of it at gaps of 1..3 s; size, position and a full undo against a list model");
+}
+
 int main(int argc, char **argv)
 {
     vp::init(argc, argv, "C15");
     long_addresses();
     full_seeks();
+    cap_and_merge();
     bfs::Engine<Sys> E;
     const bool T = vp::thorough();
     E.max_depth = T ? 8 : 5;
